@@ -331,6 +331,32 @@ def difference_witness(a, b, alpha, limit=200000):
     return None
 
 
+def intersection_witness(a, b, alpha, limit=200000):
+    """A string accepted by both NFAs (shortest), or None."""
+    from collections import deque
+    sa0, sb0 = a.closure([a.start]), b.closure([b.start])
+    seen = set([(sa0, sb0)])
+    dq = deque([(sa0, sb0, '')])
+    n = 0
+    while dq:
+        sa_, sb_, w = dq.popleft()
+        if a.final in sa_ and b.final in sb_:
+            return w
+        n += 1
+        if n > limit:
+            raise AnalysisError('regex product automaton too large')
+        for ch in alpha:
+            na = a.step(sa_, ch)
+            nb = b.step(sb_, ch)
+            if not na or not nb:
+                continue
+            key = (na, nb)
+            if key not in seen:
+                seen.add(key)
+                dq.append((na, nb, w + ch))
+    return None
+
+
 def some_word(a, alpha, pred=None, limit=100000):
     """Shortest accepted word (optionally satisfying pred)."""
     from collections import deque
